@@ -63,6 +63,13 @@ CHECKS["C19"] = dict(
     design="4 (C19)",
 )
 
+CHECKS["C05"] = dict(
+    technique="Coq proof (invariants of the registration walk by induction on fuel with a set of pending symbols; exit condition of the distance fixpoint loop + mutual induction over derivations for the lower bound; witness invariant over the passes for the upper bound; breadth-first reachability invariant) over a hand-written Gallina model of extract_grammar/preprocess/usable_grammar + differential correspondence on generated class hierarchies under three PYTHONHASHSEEDs + an independent specification (level sets of derivability, relational closure) evaluated on the observed Grammar objects",
+    text="4 theorems (Props/C05.v, closed under the global context): for EVERY class hierarchy and EVERY iteration order of the symbol set: the productions of an abstract type are exactly the registered classes whose direct parent it is (duplicate-free, non-empty, unique keys); in the default depth mode the reported minimum depth of a class is a lower bound on the depth of every derivable program and, when finite, is attained by one (derivations with non-empty lists), hence is independent of the iteration order; the recursive set is exactly the set of registered symbols on a cycle of the can-contain relation (through lists, annotations, unions, tuples). Tied to /repo by ~280 generated hierarchies x 3 hash seeds per run (all field type forms, unreachable and standalone classes, both depth modes, a second grammar extracted over the same classes in between) compared with the model inside Coq; usable_grammar() compared with the model and with the independently computed reachable set.",
+    note="Trusted: Coq kernel + vm_compute; hand-written model Model/Grammar.v; Spec/WellTyped.v; harness. PARTIAL: exactness of minimum depths is proved for the default depth mode only (expansion-depthing: correspondence only); usable_grammar is modelled and compared but its theorem is not proved (checked per case against the independent reachability specification). Known findings F10 (lists that may be empty still cost their element's depth) and F35 (usable_grammar keeps unreachable abstract parents of reachable productions) listed in known_findings.json.",
+    design="4 (C05)",
+)
+
 ALL = [f"C{n:02d}" for n in range(1, 21)]
 
 m = {
